@@ -53,6 +53,7 @@ type caseResult struct {
 	Panic    string        `json:"panic,omitempty"`
 	Desync   string        `json:"desync,omitempty"`
 	Consumed int           `json:"consumed"`
+	Hang     bool          `json:"hang,omitempty"` // the case did not return within the hang timeout
 }
 
 type abortCase struct{ why string }
@@ -320,6 +321,14 @@ func GoroutinesSettled() int {
 	return last - 1
 }
 
+// hangTimeout: how long a native case may run before it is reported as a hang.
+const hangTimeout = 20 * time.Second
+
+// OnHang attributes a hang (every goroutine blocked, nothing left to fire) that happens from now on
+// to the known finding kfID when inRegion holds (engine intrinsic; natively a no-op: the replay
+// runner reports a case that does not return as a hang).
+func OnHang(kfID string, inRegion bool) {}
+
 // VirtualNow is the discrete-event clock of the engine in nanoseconds (TIMERS_DES=1); natively -1.
 func VirtualNow() int64 { return -1 }
 
@@ -380,6 +389,7 @@ func ReplayMain(entries map[string]func()) {
 		}
 		seen := map[string]bool{}
 		started := time.Now()
+		hung := false
 		for k := 0; k < reps; k++ {
 			if k > 0 && time.Since(started) > 60*time.Second {
 				break // repeat budget
@@ -390,17 +400,33 @@ func ReplayMain(entries map[string]func()) {
 				res.Desync = "no such entry " + c.Entry
 				break
 			}
-			func() {
+			done := make(chan struct{})
+			myRes := res
+			go func() {
+				defer close(done)
 				defer func() {
 					if p := recover(); p != nil {
 						if _, ok := p.(abortCase); ok {
 							return
 						}
-						res.Panic = fmt.Sprint(p)
+						myRes.Panic = fmt.Sprint(p)
 					}
 				}()
 				f()
 			}()
+			select {
+			case <-done:
+			case <-time.After(hangTimeout):
+				// the entry did not return: report a hang; its goroutines stay parked and later
+				// cases get a fresh result object
+				out, _ := json.Marshal(&caseResult{ID: c.ID, Hang: true, Reached: append([]string{}, myRes.Reached...)})
+				fmt.Println("GOSYM-RESULT " + string(out))
+				res = &caseResult{ID: c.ID + "-abandoned"}
+				hung = true
+			}
+			if hung {
+				break
+			}
 			if c.Repeat > 0 && c.Want == "" {
 				// schedule-dependent counterexample: repeat with the real scheduler until it shows
 				if len(res.Failures) > 0 || res.Panic != "" || res.Desync != "" {
@@ -419,6 +445,9 @@ func ReplayMain(entries map[string]func()) {
 					break
 				}
 			}
+		}
+		if hung {
+			continue
 		}
 		if c.Repeat > 0 && c.Want != "" {
 			for l := range seen {
